@@ -302,7 +302,43 @@ _M_NAMES = ["x", "y", "x-v1", "env:a.b", "Ünï_1", "Snake", "Sudoku-very-easy"]
 _M_VERS = ["0", "1", "2", "7", "007", "01", "10", "٧", "00", "1", "3", "4", "5", "12345678901234567890123"]
 _M_BAD = ["x", "x-v", "-v1", "bad id-v1", "x-v1\n", "", "x/y-v0", "x-V1", "x-v²"]
 _M_KEYS = ["a", "b", "c"]
-_M_VALS = [0, 1, 2, "s", "t", None, [1, 2], {"k": 1}, {"k": 2}, {"j": 3}, {}, {"k": {"n": 1}}, {"k": {"m": 2}, "j": 0}]
+_M_VALS = [0, 1, 2, "s", "t", None, [1, 2], {"k": 1}, {"k": 2}, {"j": 3}, {}, {"k": {"n": 1}}, {"k": {"m": 2}, "j": 0},
+           {"$opaque": 0}, {"$opaque": 1}, {"k": {"$opaque": 0}}]
+
+
+class Opaque:
+    """A registered argument that is not a plain value: like the generator / viewer objects that jumanji/__init__.py
+    registers, it holds a resource (a lock here), so it can be neither pickled nor deep-copied.  Operations stay
+    JSON-able: the marker {"$opaque": n} stands for the live object _OPAQUES[n] (see _live / _enc)."""
+
+    def __init__(self, token):
+        import threading
+
+        self.token, self._lock = token, threading.Lock()
+
+    def __repr__(self):
+        return f"Opaque({self.token})"
+
+
+_OPAQUES = [Opaque(0), Opaque(1)]
+
+
+def _live(v):
+    """JSON description -> fresh containers holding the live argument objects."""
+    if isinstance(v, dict):
+        if set(v) == {"$opaque"}:
+            return _OPAQUES[v["$opaque"]]
+        return {k: _live(x) for k, x in v.items()}
+    if isinstance(v, list):
+        return [_live(x) for x in v]
+    return v
+
+
+def _enc(o):
+    # equality of opaque arguments is by token (an equivalent object is accepted, identity is not demanded)
+    if isinstance(o, Opaque):
+        return {"$opaque": o.token}
+    raise TypeError(type(o).__name__)
 
 
 def _m_id():
@@ -320,7 +356,7 @@ def _m_kwargs():
 def _same(a, b) -> bool:
     """Strict structural equality of JSON-able values (1 != True != 1.0, key order irrelevant)."""
     try:
-        return json.dumps(a, sort_keys=True) == json.dumps(b, sort_keys=True)
+        return json.dumps(a, sort_keys=True, default=_enc) == json.dumps(b, sort_keys=True, default=_enc)
     except (TypeError, ValueError):
         return False
 
@@ -411,7 +447,7 @@ class Interp:
                 continue
             sp, p = R[k], o_parse(k)
             try:
-                kw = json.loads(json.dumps(sp.kwargs))
+                kw = json.loads(json.dumps(sp.kwargs, default=_enc))
                 ok = p[0] == "valid" and o_canon(p[1], p[2]) == k and isinstance(sp.kwargs, dict) \
                     and _is_pair((sp.name, sp.version), p[1], p[2]) is None and sp.id == k
             except (TypeError, ValueError, AttributeError):
@@ -445,7 +481,7 @@ class Interp:
             r = _call(self.j.register, s, entry) if op.get("style") == "pos" else \
                 _call(self.j.register, id=s, entry_point=entry)
         else:
-            arg = copy.deepcopy(kw)
+            arg = _live(kw)
             r = _call(self.j.register, s, entry, kwargs=arg) if op.get("style") == "pos" else \
                 _call(self.j.register, id=s, entry_point=entry, kwargs=arg)
         fails = []
@@ -492,7 +528,7 @@ class Interp:
         if canon is not None and canon in self.snapshot:
             self._stat("make_shipped_skipped")   # real environments are exercised by the 'shipped' items
             return []
-        r = _call(self.j.make, s, *copy.deepcopy(args), **copy.deepcopy(kw))
+        r = _call(self.j.make, s, *copy.deepcopy(args), **_live(kw))
         fails = []
         if p[0] != "valid":
             outcome = "make of a malformed id"
@@ -534,7 +570,7 @@ class Interp:
             want = dict(m["kwargs"])
             want.update(kw)
             # reference: the registered class called with the caller's positional arguments and registered | caller kwargs
-            ref = _call(cls, *copy.deepcopy(args), **copy.deepcopy(want))
+            ref = _call(cls, *copy.deepcopy(args), **_live(want))
             if args:
                 self._stat("make_with_positional_args")
             if ref[0] == "exc":
